@@ -547,3 +547,25 @@ def int_bits(ty):
     if ty and ty.startswith("i") and ty[1:].isdigit():
         return int(ty[1:])
     return None
+
+
+def _di_leaves(self, tid, base=0, prefix="", depth=0):
+    """Scalar/array leaf members of a DI composite: list of (path, offset, size, member type id)."""
+    out = []
+    sid = self.di_strip(tid)
+    t = self.ditypes.get(sid)
+    if not t or depth > 8:
+        return out
+    if t["tag"] in ("DW_TAG_structure_type", "DW_TAG_union_type"):
+        for m in self.di_members(sid):
+            mt = self.di_strip(m["base"])
+            mtt = self.ditypes.get(mt)
+            name = (prefix + "." if prefix else "") + (m["name"] or "<anon>")
+            if mtt and mtt["tag"] in ("DW_TAG_structure_type", "DW_TAG_union_type") and mtt.get("elems"):
+                out += _di_leaves(self, m["base"], base + m["offset"], name, depth + 1)
+            else:
+                out.append((name, base + m["offset"], mtt["size"] if mtt else 0, m["base"]))
+    return out
+
+
+Module.di_leaves = _di_leaves
